@@ -23,6 +23,7 @@ def slotNames : List (String × Slot) :=
   [("reqObj", .reqObj), ("respObj", .respObj), ("bodyObj", .bodyObj), ("hooks", .hooks), ("hookLists", .hookLists),
    ("errorPage", .errorPage), ("namespaces", .namespaces), ("toolmaps", .toolmaps), ("toolmapTools", .toolmapTools),
    ("params", .params), ("headers", .headers), ("headerList", .headerList), ("cookie", .cookie), ("config", .config),
+   ("uniqueId", .uniqueId), ("local", .local), ("remote", .remote),
    ("respHeaders", .respHeaders), ("respCookie", .respCookie), ("respBody", .respBody), ("processors", .processors),
    ("attemptCharsets", .attemptCharsets), ("bodyParams", .bodyParams), ("parts", .parts),
    ("bodyHeaders", .bodyHeaders), ("requestParams", .requestParams)]
@@ -31,6 +32,7 @@ def cellNames : List (String × ClassCell) :=
   [("reqHooks", .reqHooks), ("reqHookLists", .reqHookLists), ("reqErrorPage", .reqErrorPage),
    ("reqNamespaces", .reqNamespaces), ("reqToolmaps", .reqToolmaps), ("reqParams", .reqParams),
    ("reqHeaders", .reqHeaders), ("reqHeaderList", .reqHeaderList), ("reqCookie", .reqCookie),
+   ("reqLocal", .reqLocal), ("reqRemote", .reqRemote),
    ("respHeaders", .respHeaders), ("respCookie", .respCookie), ("respHeaderList", .respHeaderList),
    ("entProcessors", .entProcessors), ("entAttemptCharsets", .entAttemptCharsets),
    ("partAttemptCharsets", .partAttemptCharsets), ("appConfig", .appConfig), ("appNamespaces", .appNamespaces),
